@@ -1703,3 +1703,171 @@ Qed.
 
 Lemma closing_of_bare c : c = Close \/ c = Del -> is_closing c = true.
 Proof. intros [-> | ->]; reflexivity. Qed.
+
+(* ------------------------------------------------------------------------------------------------ *)
+(* a sufficient condition for "no rename replaced a file": rotated names are used for nothing else, and the
+   rotation stamps are pairwise distinct per path                                                       *)
+
+Section RotationStamps.
+Variable sh : shapes.
+Variable batch : nat.
+Variable rot_name : path -> stamp -> path.
+Variable k : adapter.
+Variable U : list path.        (* the names in use otherwise: pre-existing files and template paths *)
+
+Hypothesis ROT_INJ : forall p s p' s', rot_name p s = rot_name p' s' -> p = p' /\ s = s'.
+Hypothesis ROT_FRESH : forall p s, ~ In (rot_name p s) U.
+
+Notation pt_write := (Writers.pt_write sh batch rot_name k).
+Notation pt_run := (Writers.pt_run sh batch rot_name k).
+
+Definition ren_pair (e : rename_event) : path * stamp := (ren_src e, ren_stamp e).
+Definition key_ok (log : list rename_event) (q : path) : Prop := In q U \/ In q (map ren_dst log).
+Definition keys_inv (st : pstate) : Prop :=
+  (forall q, In q (map fst (pt_files st)) -> key_ok (p_log st) q) /\
+  Forall (fun e => ren_dst e = rot_name (ren_src e) (ren_stamp e)) (p_log st).
+
+Lemma key_ok_mono log new q : key_ok log q -> key_ok (log ++ new) q.
+Proof. intros [H|H]; [left; exact H | right; rewrite map_app, in_app_iff; left; exact H]. Qed.
+
+Lemma nodup_app_l {A} (a b : list A) : NoDup (a ++ b) -> NoDup a.
+Proof.
+  induction a as [|x a IH]; cbn; intros H; [constructor|]. inversion H; subst.
+  constructor; [rewrite in_app_iff in *; tauto | auto].
+Qed.
+
+Lemma nodup_snoc_notin {A} (l : list A) x : NoDup (l ++ [x]) -> ~ In x l.
+Proof. intros H. apply NoDup_remove_2 in H. rewrite app_nil_r in H. exact H. Qed.
+
+Lemma fs_put_keys {V} p (v : V) l q : In q (map fst (fs_put String.eqb p v l)) -> q = p \/ In q (map fst l).
+Proof.
+  unfold fs_put. rewrite map_app, in_app_iff, fs_remove_keys. cbn. intros [[H _]|[H|[]]]; [right; exact H | left; auto].
+Qed.
+Lemma fs_rename_keys {V} p dst (l : list (string * V)) q :
+  In q (map fst (fs_rename String.eqb p dst l)) -> q = dst \/ In q (map fst l).
+Proof.
+  unfold fs_rename. destruct (fs_get String.eqb p l) as [v|]; [|right; assumption].
+  intros H. apply fs_put_keys in H. destruct H as [H|H]; [left; exact H|]. right. apply fs_remove_keys in H. tauto.
+Qed.
+
+Lemma pt_rotate_keys st p : keys_inv st -> NoDup (map ren_pair (p_log (pt_rotate rot_name st p))) ->
+  Forall no_overwrite (p_log st) ->
+  let st1 := pt_rotate rot_name st p in
+  Forall no_overwrite (p_log st1) /\
+  Forall (fun e => ren_dst e = rot_name (ren_src e) (ren_stamp e)) (p_log st1) /\
+  (exists new, p_log st1 = p_log st ++ new) /\
+  p_current st1 = p_current st /\ p_writer st1 = p_writer st /\
+  (forall q, In q (map fst (p_fs st1)) -> key_ok (p_log st1) q).
+Proof.
+  intros [Hk Hwf] Hnd Hno. unfold pt_rotate in *. destruct (fs_mem String.eqb p (p_fs st)) eqn:Em; cbn zeta.
+  - cbn [p_log p_current p_writer p_fs] in *.
+    set (s := hd EmptyString (p_clock st)) in *. set (dst := rot_name p s) in *.
+    assert (Hflag : fs_mem String.eqb dst (pt_files st) = false).
+    { destruct (fs_mem String.eqb dst (pt_files st)) eqn:Ef; [exfalso | reflexivity].
+      apply fs_mem_true in Ef. destruct (Hk dst Ef) as [H|H].
+      - apply (ROT_FRESH p s). exact H.
+      - apply in_map_iff in H. destruct H as (e' & He' & Hin).
+        rewrite Forall_forall in Hwf. rewrite (Hwf e' Hin) in He'. apply ROT_INJ in He'. destruct He' as [Hp Hs].
+        rewrite map_app in Hnd. cbn in Hnd. apply nodup_snoc_notin in Hnd. apply Hnd.
+        apply in_map_iff. exists e'. split; [|exact Hin]. unfold ren_pair. cbn. rewrite Hp, Hs. reflexivity. }
+    rewrite Hflag. repeat split; auto.
+    + apply Forall_app. split; [exact Hno|]. constructor; [reflexivity | constructor].
+    + apply Forall_app. split; [exact Hwf|]. constructor; [reflexivity | constructor].
+    + eexists. reflexivity.
+    + intros q Hq. apply fs_rename_keys in Hq. destruct Hq as [->|Hq].
+      * right. rewrite map_app, in_app_iff. right. left. reflexivity.
+      * apply key_ok_mono. apply Hk. unfold pt_files. rewrite map_app, in_app_iff. left. exact Hq.
+  - repeat split; auto.
+    + exists []. rewrite app_nil_r. reflexivity.
+    + intros q Hq. apply Hk. unfold pt_files. rewrite map_app, in_app_iff. left. exact Hq.
+Qed.
+
+Lemma pt_write_keys st p r : keys_inv st -> In p U ->
+  NoDup (map ren_pair (p_log (fst (pt_write st p r)))) -> Forall no_overwrite (p_log st) ->
+  Forall no_overwrite (p_log (fst (pt_write st p r))) /\ keys_inv (fst (pt_write st p r)) /\
+  (exists new, p_log (fst (pt_write st p r)) = p_log st ++ new).
+Proof.
+  intros Hinv Hp Hnd Hno. unfold Writers.pt_write in *.
+  set (st1 := match p_current st with
+              | Some p0 => if String.eqb p0 p then st else pt_switch sh rot_name k st p
+              | None => pt_switch sh rot_name k st p end) in *.
+  assert (Hlog1 : forall w', p_log (mkP (p_current st1) (Some w') (p_fs st1) (p_clock st1) (p_log st1)) = p_log st1) by reflexivity.
+  assert (Hst' : p_log (fst (match p_writer st1 with
+                             | Some w => let (w', o) := do_write batch k w r in
+                                         (mkP (p_current st1) (Some w') (p_fs st1) (p_clock st1) (p_log st1), o)
+                             | None => (st1, Raised) end)) = p_log st1).
+  { destruct (p_writer st1); [destruct (do_write batch k w r)|]; reflexivity. }
+  rewrite Hst' in *.
+  assert (Hmain : Forall no_overwrite (p_log st1) /\ keys_inv st1 /\ (exists new, p_log st1 = p_log st ++ new)).
+  { assert (Hsame : st1 = st -> Forall no_overwrite (p_log st1) /\ keys_inv st1 /\ (exists new, p_log st1 = p_log st ++ new)).
+    { intros ->. repeat split; try apply Hinv; auto. exists []. rewrite app_nil_r. reflexivity. }
+    assert (Hsw : st1 = pt_switch sh rot_name k st p ->
+                  Forall no_overwrite (p_log st1) /\ keys_inv st1 /\ (exists new, p_log st1 = p_log st ++ new)).
+    { intros E. rewrite E in *. unfold pt_switch in *. cbn [p_log] in *.
+      destruct (pt_rotate_keys st p Hinv Hnd Hno) as (H1 & H2 & H3 & H4 & H5 & H6).
+      split; [exact H1|]. split; [|exact H3]. split; [|exact H2].
+      cbn [p_log]. unfold pt_files. cbn [p_fs p_current p_writer]. intros q. rewrite map_app, in_app_iff. cbn.
+      intros [Hq|[Hq|[]]]; [|left; subst; exact Hp].
+      apply fs_remove_keys in Hq. destruct Hq as [Hq _].
+      destruct Hinv as [Hk _]. destruct H3 as [new Hnew].
+      destruct (p_current st) as [p0|] eqn:Ec; [destruct (p_writer st) as [w0|] eqn:Ew|]; try (apply H6; exact Hq).
+      apply fs_put_keys in Hq. destruct Hq as [->|Hq]; [|apply H6; exact Hq].
+      rewrite Hnew. apply key_ok_mono. apply Hk. unfold pt_files. rewrite Ec, Ew, map_app, in_app_iff. right. left. reflexivity. }
+    subst st1. destruct (p_current st) as [p0|]; [destruct (String.eqb p0 p)|]; auto. }
+  destruct Hmain as (H1 & [Hk1 Hwf1] & H3). split; [exact H1|]. split; [|exact H3].
+  split; [|destruct (p_writer st1); [destruct (do_write batch k w r)|]; exact Hwf1].
+  intros q Hq. assert (Hq1 : In q (map fst (pt_files st1))).
+  { revert Hq. unfold pt_files. destruct (p_writer st1) as [w|] eqn:Ew; cbn [fst]; rewrite ?Ew; [|auto].
+    destruct (do_write batch k w r) as [w' o]. cbn [fst p_fs p_current p_writer].
+    destruct (p_current st1); rewrite !map_app; cbn; auto. }
+  assert (Hl : p_log (fst (match p_writer st1 with
+                           | Some w => let (w', o) := do_write batch k w r in
+                                       (mkP (p_current st1) (Some w') (p_fs st1) (p_clock st1) (p_log st1), o)
+                           | None => (st1, Raised) end)) = p_log st1) by exact Hst'.
+  rewrite Hl. apply Hk1. exact Hq1.
+Qed.
+
+Lemma pt_run_keys ws : forall st, keys_inv st -> incl (map fst ws) U ->
+  NoDup (map ren_pair (p_log (fst (pt_run st (map pw ws))))) -> Forall no_overwrite (p_log st) ->
+  Forall no_overwrite (p_log (fst (pt_run st (map pw ws)))).
+Proof.
+  induction ws as [|[p r] ws IH]; intros st Hinv Hu Hnd Hno; cbn [map pw fst snd Writers.pt_run] in *; [exact Hno|].
+  assert (Hp : In p U) by (apply Hu; left; reflexivity).
+  assert (Hu' : incl (map fst ws) U) by (intros q Hq; apply Hu; right; exact Hq).
+  destruct (pt_write st p r) as [st' o] eqn:E. cbn [fst] in *.
+  assert (Hnd1 : NoDup (map ren_pair (p_log st'))).
+  { destruct (pt_run_log sh batch rot_name k ws st') as [new Hn]. destruct (pt_run st' (map pw ws)) as [st'' os]. cbn [fst] in *.
+    rewrite Hn, map_app in Hnd. apply nodup_app_l in Hnd. exact Hnd. }
+  pose proof (pt_write_keys st p r Hinv Hp) as Hstep. rewrite E in Hstep. cbn [fst] in Hstep.
+  destruct (Hstep Hnd1 Hno) as (H1 & H2 & _).
+  specialize (IH st' H2 Hu'). destruct (pt_run st' (map pw ws)) as [st'' os]. cbn [fst] in *. auto.
+Qed.
+
+End RotationStamps.
+
+(* packaged: rotated names are used for nothing else (not a pre-existing file, not a template path), rot_name is
+   injective, and the (path, stamp) pairs of the rotations are pairwise distinct  ==>  no rename replaced a file *)
+Theorem rotation_distinct_stamps sh batch rot_name k pre clock ws :
+  (forall p s p' s', rot_name p s = rot_name p' s' -> p = p' /\ s = s') ->
+  (forall p s, ~ In (rot_name p s) (map fst pre ++ map fst ws)) ->
+  NoDup (map ren_pair (p_log (pt_final sh batch rot_name k pre clock ws))) ->
+  Forall no_overwrite (p_log (pt_final sh batch rot_name k pre clock ws)).
+Proof.
+  intros Hinj Hfresh Hnd. unfold pt_final in *. rewrite pt_close_log in *.
+  apply (pt_run_keys sh batch rot_name k (map fst pre ++ map fst ws) Hinj Hfresh ws (pt_init pre clock)); auto.
+  - split; [|constructor]. intros q Hq. left. unfold pt_files, pt_init in Hq. cbn in Hq. rewrite app_nil_r in Hq.
+    apply in_or_app. left. exact Hq.
+  - intros q Hq. apply in_or_app. right. exact Hq.
+  - constructor.
+Qed.
+
+(* the unrestricted durability statement, and why it is false while StreamWriter.close does not flush *)
+Definition durable_full (sh : shapes) : Prop :=
+  forall batch k h, has_close h = true ->
+    readable (w_file (fst (run sh batch k (w_init k) h))) = Some (expected k (snd (run sh batch k (w_init k) h))).
+
+Lemma durable_full_false sh : shapes_ok sh = true -> sh_stream_close_flushes sh = false -> ~ durable_full sh.
+Proof.
+  intros SH Hf H. specialize (H 0 AStream [Close] eq_refl).
+  destruct (stream_bare_close_fails sh 0 [Close] SH Hf eq_refl) as (_ & _ & Hn). rewrite Hn in H. discriminate.
+Qed.
